@@ -13,6 +13,11 @@ the code:
   load_all     InsightsConfig(conf=<tmp>).load_all() under controlled sys.argv / os.environ / config file /
                scratch file system: every attribute, or the ValueError (+ message prefix) / SystemExit.
 
+  round 10     construct-positional (InsightsConfig(dict, **kwargs)), load_all-twice (a second load_all() on the same object),
+               load_all-positional, load_config_file (_load_config_file(fname)), glue-item (config[k] = v), offline-net (the
+               run-time guards of insights/client under network traps, on real offline configurations) and offline-sites
+               (translate/offline_sites.py -> lean/IV/Gen/OfflineSites.lean: every call site that can open a connection).
+
 The ORACLE restates the property on the real object (precedence with its own coercion rules, unknown names,
 the implication table, conflicts rejected) and runs on every load_all / construct case.
 """
@@ -304,7 +309,7 @@ def gen_sources(rng, names, heavy=False):
                     case["cli"].append([k, flag, rng.choice([None, "img", ""])])
     # decoys that must be ignored by the environment loader
     if rng.random() < 0.3:
-        case["env"].append([rng.choice(["FOO_OFFLINE", "XINSIGHTS_OFFLINE", "INSIGHTS_PHASE", "INSIGHTS", "INSIGHTS_", "insights_phase"]),
+        case["env"].append([rng.choice(["FOO_OFFLINE", "XINSIGHTS_OFFLINE", "INSIGHTS_PHASE", "INSIGHTS", "INSIGHTS_", "insights_phase", "HTTP_PROXY", "HTTP_PROXY"]),
                             rng.choice(["true", "x"])])
     rng.shuffle(case["env"])
     rng.shuffle(case["cli"])
@@ -464,12 +469,20 @@ def run_impl(scr, case, construct_only=False):
                 sys.argv = argv_of(scr, case)
                 for k, v in case["env"]:
                     os.environ[k] = scr.sub(v)
-            cfg = InsightsConfig(**kw)
+            if case.get("pos") is not None:
+                pos = dict((k, scr.sub(v)) for k, v in case["pos"].items())
+                cfg = InsightsConfig(pos, **kw)
+            else:
+                cfg = InsightsConfig(**kw)
             if not construct_only:
-                r = cfg.load_all()
-                if r is not cfg:
-                    return ("CRASH", "load_all returned %r" % (r,))
-            return ("OK", dict((k, v) for k, v in vars(cfg).items()))
+                for _ in range(2 if case.get("twice") else 1):
+                    r = cfg.load_all()
+                    if r is not cfg:
+                        return ("CRASH", "load_all returned %r" % (r,))
+            d = vars(cfg)
+            if not isinstance(d, dict):
+                return ("CRASH", "vars(config) is %r" % type(d).__name__)
+            return ("OK", dict((k, v) for k, v in d.items()))
         except ValueError as e:
             return ("VE", str(e))
         except SystemExit as e:
@@ -493,8 +506,14 @@ def request(scr, case, op):
     paths += [scr.sub(v) for k, v in case["env"] if k.upper() in ("INSIGHTS_OUTPUT_DIR", "INSIGHTS_OUTPUT_FILE")]
     paths += [scr.sub(v) for k, _, v in case["cli"] if k in ("output_dir", "output_file") and v is not None]
     paths += [scr.sub(v) for k, v in case["kw"].items() if k in ("output_dir", "output_file")]
+    paths += [scr.sub(v) for k, v in (case.get("pos") or {}).items() if k in ("output_dir", "output_file")]
     facts = ",".join(scr.facts_for(paths)) or "~"
-    return "\t".join([op, "1" if case.get("pe") else "0", kw, ";".join(files) or "~", envs, cli, facts])
+    fields = [op, "1" if case.get("pe") else "0", kw, ";".join(files) or "~", envs, cli, facts]
+    if op == "loadfile":
+        fields.append(canon(scr.sub(case.get("fname"))))
+    if op in ("constructp", "loadp"):
+        fields.append(",".join("%s=%s" % (enc(k), canon(scr.sub(v))) for k, v in (case.get("pos") or {}).items()) or "~")
+    return "\t".join(fields)
 
 
 def impl_line(res, model_line):
@@ -529,10 +548,11 @@ def resolve(scr, case):
     bools = set(default_bools())
     exp = dict((k, v["default"]) for k, v in DEFAULT_OPTS.items())
     layers = []
+    layers.append(dict((k, scr.sub(v)) for k, v in (case.get("pos") or {}).items() if k in DEFAULT_OPTS))
     kw = dict((k, scr.sub(v)) for k, v in case["kw"].items() if k in DEFAULT_OPTS)
     layers.append(kw)
     # which file is read: --conf from the command line, else the constructor's conf
-    conf = kw.get("conf", exp["conf"])
+    conf = kw.get("conf", layers[0].get("conf", exp["conf"]))
     for k, _, v in case["cli"]:
         if k == "conf":
             conf = scr.sub(v)
@@ -610,10 +630,11 @@ def oracle(chk, scr, case, res, stream):
     exp, note = resolve(scr, case) if stream == "load" else (None, "construct")
     if stream == "construct":
         exp = dict((k, v["default"]) for k, v in DEFAULT_OPTS.items())
-        kw = dict((k, scr.sub(v)) for k, v in case["kw"].items() if k in DEFAULT_OPTS)
-        if kw.get("no_gpg"):
-            kw["gpg"] = False
-        exp.update(kw)
+        for layer in (case.get("pos") or {}, case["kw"]):
+            kw = dict((k, scr.sub(v)) for k, v in layer.items() if k in DEFAULT_OPTS)
+            if kw.get("no_gpg"):
+                kw["gpg"] = False
+            exp.update(kw)
         note = {"file_kind": "none"}
     if exp is None:
         return                      # an invalid number in the environment / on the command line: an error either way
@@ -659,7 +680,7 @@ def oracle(chk, scr, case, res, stream):
     # an implied option keeps its precedence value (as a truth value: `x or offline` / `x and not offline` return an
     # operand) unless its documented trigger is present
     # (constructor keyword arguments went through the implications once already, at construction)
-    kw_trigger = stream == "load" and any(k in case["kw"] for k in ("offline", "output_dir", "output_file"))
+    kw_trigger = stream == "load" and any(k in case["kw"] or k in (case.get("pos") or {}) for k in ("offline", "output_dir", "output_file"))
     if kw_trigger:
         pass
     elif not (exp["offline"] or exp["output_dir"] or exp["output_file"]) and bool(d["no_upload"]) != bool(exp["no_upload"]):
@@ -693,7 +714,12 @@ def oracle(chk, scr, case, res, stream):
 
 
 def case_for_replay(case, stream):
-    return {"stream": stream, "kw": case["kw"], "files": case["files"], "env": case["env"], "cli": case["cli"], "pe": case.get("pe")}
+    d = {"stream": stream, "kw": case["kw"], "files": case["files"], "env": case["env"], "cli": case["cli"], "pe": case.get("pe")}
+    if case.get("pos") is not None:
+        d["pos"] = case["pos"]
+    if case.get("twice"):
+        d["twice"] = True
+    return d
 
 
 # ----------------------------------------------------------------------------- regression witness (fixed: 8686086)
@@ -743,7 +769,7 @@ def run_stream(chk, scr, cases, op, name):
     lines = [request(scr, c, op) for c in cases]
     results = []
     for c in cases:
-        res = run_impl(scr, c, construct_only=(op == "construct"))
+        res = run_impl(scr, c, construct_only=(op in ("construct", "constructp")))
         results.append(res)
         chk.count("%s:outcome:%s" % (name, res[0]))
         chk.count("%s:_print_errors:%s" % (name, {None: "absent", False: "False", True: "True"}[c.get("pe")]))
@@ -751,11 +777,334 @@ def run_stream(chk, scr, cases, op, name):
             chk.count("%s:file-has-ini-special-values" % name)
         if any(k not in DEFAULT_OPTS for k in c["kw"]) or c.get("unknown_sweep"):
             chk.count("%s:has-unknown-names" % name)
-        oracle(chk, scr, c, res, "construct" if op == "construct" else "load")
+        oracle(chk, scr, c, res, "construct" if op in ("construct", "constructp") else "load")
     model = driver(chk, lines)
     impl = [impl_line(r, m) for r, m in zip(results, model)]
-    chk.compare(name, cases, impl, model, show=lambda c: case_for_replay(c, op))
+    chk.compare(name, cases, impl, model, show=lambda c: case_for_replay(c, "construct" if op in ("construct", "constructp") else "load"))
     return results, model
+
+
+# ----------------------------------------------------------------------------- round 10: glue around the loader
+ODD_BOOLS = [None, 0, 1, "", "yes", [], [0], 2]     # present but not a bool: falsy and truthy objects of other types
+
+
+def gen_kwvals(rng, names, odd=0.0):
+    kw = {}
+    for k in names:
+        kind = opt_kind(k)
+        kw[k] = rng.choice(ODD_BOOLS) if (kind == "bool" and rng.random() < odd) else (rng.random() < 0.7) if kind == "bool" else rng.choice([0, 1, 2, 3, 5]) if kind == "int" else \
+            rng.choice([1.5, 30.0]) if kind == "float" else str_value(rng, k)
+    return kw
+
+
+def glue_stream(chk, scr, n):
+    """
+    Entry points beside load_all that read or write the same state, judged by the oracle alone:
+      _load_config_file(fname=F) reads F, not self.conf (config.py:627-633);
+      config[key] / config[key] = v are the attributes themselves (config.py:513-517), and a later _imply_options /
+      _validate_options sees what was written through them.
+    """
+    rng = chk.rng
+    fcases, fres, flines = [], [], []
+    for i in range(n):
+        a_items = rng.sample(ORDINARY_FILE, rng.randint(1, 4))
+        b_items = rng.sample(ORDINARY_FILE, rng.randint(1, 4))
+        kind_b = rng.choice(["section", "section", "section", "legacy", "legacy", "missing", "garbage"])
+        case = {"stream": "glue-fname", "kw": {"conf": T + "/conf_a.conf"}, "env": [], "cli": [], "pe": pe_choice(rng),
+                "files": {T + "/conf_a.conf": {"kind": "section", "items": [list(x) for x in a_items]},
+                          T + "/conf_b.conf": {"kind": kind_b, "items": [list(x) for x in b_items]}},
+                "fname": rng.choice([T + "/conf_b.conf", T + "/conf_b.conf", None, ""])}
+        chk.case(("glue-fname", json.dumps(case, sort_keys=True)), True)
+        chk.count("glue:fname:%s" % ("given" if case["fname"] else "absent-or-empty"))
+        res, fails = glue_fname_run(scr, case)
+        for msg in fails:
+            chk.failure(msg, case)
+        fcases.append(case); fres.append(res); flines.append(request(scr, case, "loadfile"))
+    model = driver(chk, flines)
+    chk.compare("load_config_file", fcases, [impl_line(r, m) for r, m in zip(fres, model)], model)
+    for i in range(max(20, n // 4)):
+        k = rng.choice(CORE_BOOLS)
+        case = {"stream": "glue-item", "key": k, "value": rng.choice([True, False, None, 0, 1, "", "x"]), "pe": pe_choice(rng)}
+        chk.case(("glue-item", json.dumps(case, sort_keys=True)), True)
+        chk.count("glue:item")
+        for msg in glue_item_failures(case):
+            chk.failure(msg, case)
+
+
+def glue_fname_failures(scr, case):
+    return glue_fname_run(scr, case)[1]
+
+
+def glue_fname_run(scr, case):
+    """-> (result like run_impl, oracle failures)"""
+    bools = set(default_bools())
+    write_files(scr, case)
+    kw = dict((k, scr.sub(v)) for k, v in case["kw"].items())
+    if case.get("pe") is not None:
+        kw["_print_errors"] = bool(case["pe"])
+    fname = scr.sub(case["fname"]) if case["fname"] else case["fname"]
+    with Quiet():
+        try:
+            cfg = InsightsConfig(**kw)
+            r = cfg._load_config_file(fname=fname) if case["fname"] is not None else cfg._load_config_file()
+            got = dict(vars(cfg))
+        except Exception as e:
+            return ("CRASH", "%s: %s" % (type(e).__name__, e)), \
+                ["_load_config_file(fname=%r) on valid files raised %s: %s" % (case["fname"], type(e).__name__, e)]
+    which = T + "/conf_b.conf" if case["fname"] else T + "/conf_a.conf"      # '' and None fall back to self.conf
+    exp = dict((k, v["default"]) for k, v in DEFAULT_OPTS.items())
+    exp["conf"] = kw["conf"]
+    for k, v in (case["files"][which]["items"] if case["files"][which]["kind"] in ("section", "legacy") else []):
+        if k in INT_OPTS:
+            v = int(v)
+        elif k in FLOAT_OPTS:
+            v = float(v)
+        elif k in bools:
+            v = v.lower() in TRUE_SP
+        exp[k] = v
+    out = []
+    if r is not None:
+        out.append("_load_config_file returned %r" % (r,))
+    for k in DEFAULT_OPTS:
+        if k not in got:
+            out.append("option %s has no value after _load_config_file" % k)
+        elif not same(got[k], exp[k]):
+            out.append("after _load_config_file(fname=%r) with conf=%s: option %s = %r, the file %s gives %r"
+                       % (case["fname"], case["kw"]["conf"], k, got[k], which, exp[k]))
+    return ("OK", got), out[:3]
+
+
+def glue_item_failures(case):
+    k, v = case["key"], case["value"]
+    out = []
+    with Quiet():
+        try:
+            kw = {} if case.get("pe") is None else {"_print_errors": bool(case["pe"])}
+            cfg = InsightsConfig(**kw)
+            cfg[k] = v
+            a, b = cfg[k], getattr(cfg, k)
+            if not (a is v or a == v) or not (b is v or b == v):
+                out.append("config[%r] = %r, then config[%r] is %r and the attribute is %r" % (k, v, k, a, b))
+            cfg2 = InsightsConfig(**dict(kw, **{k: v}))
+            try:
+                cfg._imply_options()
+                cfg._validate_options()
+                r1 = ("OK", dict((x, y) for x, y in vars(cfg).items() if not x.startswith("_")))
+            except ValueError:
+                r1 = ("VE", None)
+            r2 = ("OK", dict((x, y) for x, y in vars(cfg2).items() if not x.startswith("_")))
+        except ValueError:
+            r2 = ("VE", None)
+            try:
+                cfg._imply_options()
+                cfg._validate_options()
+                r1 = ("OK", None)
+            except ValueError:
+                r1 = ("VE", None)
+        except Exception as e:
+            return ["item access on InsightsConfig raised %s: %s" % (type(e).__name__, e)]
+    if r1[0] != r2[0]:
+        out.append("config[%r] = %r followed by imply/validate gives %s, InsightsConfig(%s=%r) gives %s" % (k, v, r1[0], k, v, r2[0]))
+    elif r1[0] == "OK" and r1[1] is not None and show_store(r1[1]) != show_store(r2[1]):
+        out.append("config[%r] = %r followed by imply/validate gives %s, the constructor gives %s" % (k, v, show_store(r1[1]), show_store(r2[1])))
+    return out
+
+
+# ----------------------------------------------------------------------------- round 10: offline => no network
+class NetTrap(Exception):
+    pass
+
+
+class NetTraps(object):
+    """every way out to the network records a hit and raises; restored on exit"""
+
+    def __enter__(self):
+        import socket
+        import requests
+        from insights.client import connection as conn_mod, auto_config
+        self.hits = []
+        self.saved = []
+
+        def patch(obj, name, tag, exc=NetTrap):
+            if not hasattr(obj, name):
+                return
+            old = obj.__dict__.get(name, getattr(obj, name)) if isinstance(obj, type) else getattr(obj, name)
+            self.saved.append((obj, name, old))
+
+            def trap(*a, **k):
+                self.hits.append(tag)
+                raise exc(tag)
+            setattr(obj, name, trap)
+        patch(conn_mod.InsightsConnection, "__init__", "InsightsConnection()")
+        patch(requests.sessions.Session, "request", "requests.Session.request")
+        patch(requests.sessions.Session, "send", "requests.Session.send")
+        patch(socket.socket, "connect", "socket.connect")
+        patch(socket, "create_connection", "socket.create_connection")
+        patch(socket, "getaddrinfo", "socket.getaddrinfo")
+        # reading the subscription-manager configuration is the first step of satellite auto-configuration
+        patch(auto_config, "_importInitConfig", "rhsm.config.initConfig", exc=ImportError)
+        return self
+
+    def __exit__(self, *a):
+        for obj, name, old in reversed(self.saved):
+            setattr(obj, name, old)
+
+
+OFFLINE_ENTRIES = ["net-wrapper", "get_diagnosis", "checkin", "update", "get_branch_info", "try_auto_configuration"]
+
+
+def offline_entry(entry, kw, src=None):
+    """
+    src = {"env": [[name, value]], "cli": [switch, ...]}: the configuration is then InsightsConfig(**kw).load_all() under
+    that environment and command line (no configuration file), else InsightsConfig(**kw).
+    run one entry point of insights/client with InsightsConfig(**kw) under the traps
+    -> (config.offline, hits, outcome text).  The InsightsClient object is made without __init__ (which writes pid files
+    and sets up logging): the methods under examination use self.config and self.connection only.
+    """
+    import logging
+    from insights.client import InsightsClient, client as client_mod, auto_config
+    from insights.client import constants as C
+    with Quiet():
+        if src is not None:
+            for k in list(os.environ):
+                if k.upper().startswith("INSIGHTS") or k in ("HTTP_PROXY", "HTTPS_PROXY"):
+                    del os.environ[k]
+            sys.argv = ["insights-client"] + list(src.get("cli", []))
+            for k, v in src.get("env", []):
+                os.environ[k] = v
+            cfg = InsightsConfig(**dict(kw, conf="/nonexistent_c16/insights-client.conf")).load_all()
+        else:
+            cfg = InsightsConfig(**kw)
+        logging.disable(logging.CRITICAL)
+        try:
+            with NetTraps() as traps:
+                obj = InsightsClient.__new__(InsightsClient)
+                obj.config, obj.connection, obj.tmpdir = cfg, None, None
+                out = None
+                try:
+                    if entry == "net-wrapper":
+                        # the decorator every network method of InsightsClient goes through, around a probe
+                        deco = InsightsClient.__dict__.get("_net")
+                        if deco is None:
+                            return bool(cfg.offline), [], "no-_net-decorator"
+                        ran = []
+                        deco(lambda self_: ran.append(1))(obj)
+                        out = "probe-ran" if ran else "probe-not-run"
+                        if obj.connection is not None:
+                            traps.hits.append("self.connection set to %s" % type(obj.connection).__name__)
+                    elif entry == "get_diagnosis":
+                        out = "returned %r" % (obj.get_diagnosis(),)
+                    elif entry == "checkin":
+                        out = "returned %r" % (obj.checkin(),)
+                    elif entry == "update":
+                        out = "returned %r" % (obj.update(),)
+                    elif entry == "get_branch_info":
+                        cfg.branch_info = {"remote_branch": 7, "remote_leaf": 9}
+                        r = client_mod.get_branch_info(cfg)
+                        out = "default" if r == C.default_branch_info else "returned %r" % (r,)
+                    elif entry == "try_auto_configuration":
+                        auto_config.try_auto_configuration(cfg)
+                        out = "done"
+                    else:
+                        out = "unknown-entry"
+                except NetTrap as e:
+                    out = "network:%s" % e
+                except Exception as e:      # a method that goes on without a connection fails on None: not network
+                    out = "raised %s" % type(e).__name__
+                return bool(cfg.offline), list(traps.hits), out
+        finally:
+            logging.disable(logging.NOTSET)
+
+
+def offline_case_failures(case):
+    """the oracle of the offline-net stream on one (entry, kwargs) pair"""
+    try:
+        off, hits, out = offline_entry(case["entry"], case["kw"], case.get("src"))
+    except (ValueError, SystemExit):
+        return [], "rejected"
+    except Exception as e:
+        return ["entry point %s with %r raised %s: %s before any request" % (case["entry"], case["kw"], type(e).__name__, e)], "crash"
+    fails = []
+    if off:
+        if hits:
+            fails.append("offline configuration, but %s went to the network: %s" % (case["entry"], hits))
+        if case["entry"] == "net-wrapper" and out != "probe-ran":
+            fails.append("offline configuration: the _net wrapper did not run the wrapped method (%s)" % out)
+        if case["entry"] in ("get_diagnosis", "checkin") and out != "returned None":
+            fails.append("offline configuration: %s %s instead of refusing with None" % (case["entry"], out))
+        if case["entry"] == "update" and out != "returned True":
+            fails.append("offline configuration: update() %s instead of skipping the update" % out)
+        if case["entry"] == "get_branch_info" and out != "default":
+            fails.append("offline configuration: get_branch_info %s instead of the default branch info" % out)
+    return fails, ("offline" if off else "online") + (":net" if hits else ":quiet")
+
+
+def offline_sites_failures():
+    from translate import offline_sites
+    res = offline_sites.scan(REPO)
+    return res, ["%s opens a connection whatever config.offline says (%s) and nothing in insights/client guards it"
+                 % (r["function"], r["because"]) for r in res["roots"]]
+
+
+def offline_stream(chk, n):
+    from translate import offline_sites
+    rng = chk.rng
+    # static: every call site that can open a connection, from the source
+    try:
+        res, fails = offline_sites_failures()
+        chk.extra["offline_sites"] = {"openers": res["openers"], "sites": res["sites"], "functions_scanned": res["functions"],
+                                      "files_scanned": res["files"]}
+        for s_ in res["sites"]:
+            chk.case(("offline-site", s_["in"], s_["line"]), True)
+            chk.count("offline-site:%s" % ("guarded" if s_["guarded"] else "inside-an-opener"))
+        if not any(s_["calls"] == "InsightsConnection" for s_ in res["sites"]):
+            chk.tie_broken("offline-sites", "no call of InsightsConnection found under insights/client: the scan no longer sees how connections are made", None)
+        for msg, root in zip(fails, res["roots"]):
+            chk.failure(msg, {"stream": "offline-sites", "root": root["function"]})
+        # informational: connection openers outside insights/client (datasources run by the collector); not judged, see report
+        try:
+            ds = offline_sites.scan(REPO, sub=("insights", "specs", "datasources"), seeds=("InsightsConnection", "get_connection"))
+            chk.extra["offline_sites_outside_client"] = [s_ for s_ in ds["sites"] if s_["calls"] in ("InsightsConnection", "get_connection")]
+        except (OSError, SyntaxError):
+            pass
+    except SyntaxError as e:
+        chk.tie_broken("offline-sites", "cannot parse %s" % e, None)
+    # dynamic: the guards themselves, on real configurations
+    others = ["auto_config", "auto_update", "register", "no_upload", "keep_archive", "legacy_upload", "net_debug", "quiet", "verbose",
+              "obfuscate", "core_collect", "username", "base_url", "proxy", "authmethod", "retries", "http_timeout"]
+    seen_net = 0
+    for i in range(n):
+        entry = OFFLINE_ENTRIES[i % len(OFFLINE_ENTRIES)]
+        kw = gen_kwvals(rng, rng.sample(others, rng.randint(0, 4)))
+        r = rng.random()
+        if r < 0.7:
+            kw["offline"] = rng.choice([True, True, True, 1, "yes"])
+        elif r < 0.85:
+            kw["offline"] = rng.choice([False, None, 0, ""])
+        if entry == "update":
+            kw["offline"] = True            # an on-line update() would go on to fetch eggs: only the offline refusal is driven
+        if "base_url" in kw:
+            kw["base_url"] = rng.choice(["cert-api.access.redhat.com/r/insights", "console.redhat.com/api", "sat.example.com/redhat_access/r/insights"])
+        case = {"stream": "offline-net", "entry": entry, "kw": kw}
+        if rng.random() < 0.4:          # offline decided by the environment or the command line, through load_all()
+            kw.pop("offline", None)
+            case["src"] = rng.choice([{"env": [["INSIGHTS_OFFLINE", rng.choice(["true", "True", "TRUE", "1"])]], "cli": []},
+                                      {"env": [], "cli": ["--offline"]},
+                                      {"env": [["INSIGHTS_OFFLINE", "false"]], "cli": ["--offline"]},
+                                      {"env": [["insights_offline", "true"]], "cli": ["--no-upload"]}])
+            chk.count("offline-net:config-from-load_all")
+        fails, tag = offline_case_failures(case)
+        chk.case(("offline-net", entry, json.dumps([kw, case.get("src")], sort_keys=True)), tag.startswith("offline"))
+        chk.count("offline-net:%s:%s" % (entry, tag))
+        if tag == "online:net":
+            seen_net += 1
+        for msg in fails:
+            chk.failure(msg, case)
+    # the traps must be able to see a connection being opened, or the stream proves nothing
+    off, hits, out = offline_entry("net-wrapper", {"offline": False})
+    chk.extra["offline_net_control"] = {"entry": "net-wrapper", "offline": off, "hits": hits, "outcome": out}
+    if off or not hits:
+        chk.tie_broken("offline-net", "control: with offline=False the _net wrapper opened no connection (%s, hits %s): the traps see nothing" % (out, hits), None)
 
 
 def require_repo():
@@ -782,12 +1131,16 @@ def run(chk):
                 "booleans, the output/compressor/app options and the numeric options), each placed in a random subset of "
                 "{file, environment, command line} with a random spelling per source, plus unknown names (30% of the cases carry one in "
                 "the file AND the environment AND the constructor kwargs), decoy variables, _print_errors absent/False/True, "
-                "legacy / missing / malformed files; non-trivial = a distinct case whose sources set at least one option")
+                "legacy / missing / malformed files; non-trivial = a distinct case whose sources set at least one option; "
+                "round 10: the same through a positional dict (overlapping names, non-bool values for boolean options), a second load_all() "
+                "on the same object, _load_config_file(fname), item access, and every entry point of insights/client that can open a "
+                "connection, run on configurations whose offline comes from kwargs / INSIGHTS_OFFLINE / --offline under network traps")
     chk.assumptions = [
         "translator translate/config.py (ast -> Lean) is trusted for the SHAPE of the transcription; its symbolic results are re-proved by Lean and its output is tied to the code by the construct/load_all streams",
         "argparse, RawConfigParser (file syntax, key lower-casing), os.path.*, os.listdir, manifests/content_types tables are platform: the model receives the switches as (destination, argument) pairs, the section items, and file-system facts computed by the real os functions",
         "str.lower/upper modelled on ASCII; int()/float() modelled for ASCII decimal literals without exponent/inf/nan (the generator stays inside that set)",
-        "boolean spellings in the environment for output_dir/output_file/module (os.path / str methods raise TypeError on bool) are outside the model and not generated",
+        "boolean spellings in the environment for output_dir/output_file/module (os.path / str methods raise TypeError on bool) are outside the model and not generated; the same for INSIGHTS_CONF=true/false followed by a SECOND load_all() (RawConfigParser.read(<bool>) raises TypeError)",
+        "offline => no network: call sites are extracted from the source by translate/offline_sites.py (simple-name call resolution, guard = a test of <x>.offline on the path); InsightsClient is made without running __init__; phase/v1.py and the support dump are covered by the static table only; call sites outside insights/client (datasources) are listed, not judged",
     ]
 
     # ---- 0. re-translate the decision code from the current source
@@ -799,6 +1152,17 @@ def run(chk):
                                    "generated": "lean/IV/Gen/ClientConfig.lean"}
     except Exception as e:
         chk.tie_broken("translator", "%s: %s" % (type(e).__name__, e), None)
+
+    # ---- 0b. the call sites of insights/client that can open a connection -> lean/IV/Gen/OfflineSites.lean
+    try:
+        from translate import offline_sites
+        sres = offline_sites.scan(REPO)
+        changed = offline_sites.write_if_changed(offline_sites.lean_text(sres))
+        chk.extra["translator_offline_sites"] = {"source": os.path.join(REPO, "insights/client/**/*.py"), "rewrote_generated_file": changed,
+                                                 "generated": "lean/IV/Gen/OfflineSites.lean", "entry_points": len(sres["graph"]["entry"]),
+                                                 "call_sites_into_openers": len(sres["graph"]["calls"])}
+    except Exception as e:
+        chk.tie_broken("translator-offline-sites", "%s: %s" % (type(e).__name__, e), None)
 
     # ---- 1. theorems over the regenerated definitions
     chk.lean()
@@ -846,6 +1210,30 @@ def run(chk):
             chk.case(("construct-r", json.dumps(kw, sort_keys=True)), True)
         run_stream(chk, scr, cases, "construct", "construct-random")
 
+        # ---- 3b. constructor with a positional dict: InsightsConfig(args[0], **kwargs) (config.py:497-499)
+        cases = []
+        for _ in range(500 if quick else 20000):
+            pos = gen_kwvals(rng, rng.sample(others, rng.randint(0, 3)) + rng.sample(CORE_BOOLS, rng.randint(0, 3)), odd=0.2)
+            kw = gen_kwvals(rng, rng.sample(others, rng.randint(0, 2)) + rng.sample(CORE_BOOLS, rng.randint(0, 2)), odd=0.2)
+            for k in rng.sample(sorted(pos), min(len(pos), rng.randint(0, 2))):       # the same option in both, with another value
+                kw[k] = gen_kwvals(rng, [k])[k]
+            if rng.random() < 0.3:
+                pos[rng.choice(KW_UNKNOWN)] = rng.choice([True, "x"])
+            if rng.random() < 0.15:
+                kw[rng.choice(KW_UNKNOWN)] = rng.choice([True, "x"])
+            if rng.random() < 0.2:
+                pos["no_gpg"] = rng.choice([True, False]); kw["gpg"] = rng.choice([True, False])
+            if rng.random() < 0.1:
+                pos["_print_errors"] = True         # a class attribute by then: must not pass through the positional dict
+            cases.append({"kw": kw, "pos": pos, "files": {}, "env": [], "cli": [], "pe": pe_choice(rng)})
+            chk.case(("construct-p", json.dumps([pos, kw], sort_keys=True)), bool(pos))
+            chk.count("construct-positional:%s" % ("overlap" if set(pos) & set(kw) else "disjoint"))
+        run_stream(chk, scr, cases, "constructp", "construct-positional")
+
+        # ---- 3c. entry points beside load_all (oracle only), and offline => no network
+        glue_stream(chk, scr, 120 if quick else 5000)
+        offline_stream(chk, 180 if quick else 6000)
+
         # ---- 4. load_all under controlled argv / environ / file
         hot = CORE_BOOLS + ["output_dir", "output_file", "compressor", "app", "retries", "cmd_timeout", "http_timeout", "no_gpg", "gpg",
                             "enable_schedule", "disable_schedule", "payload", "content_type", "analyze_container", "analyze_file",
@@ -879,6 +1267,32 @@ def run(chk):
             chk.count("load:sources:%s%s%s" % ("F" if any(f["items"] for f in c["files"].values()) else "-",
                                                "E" if c["env"] else "-", "C" if c["cli"] else "-"))
         results, model = run_stream(chk, scr, cases, "load", "load_all")
+        # ---- 5. HISTORIES: a second load_all() on the same object (cached _cli_opts, _imply_options a third time), and
+        #      load_all() on an object built from a positional dict; same oracle: the sources have not changed
+        cases2 = []
+        for i in range(600 if quick else 20000):
+            r = rng.random()
+            names = rng.sample(CORE_BOOLS, rng.randint(1, 4)) if r < 0.4 else rng.sample(hot, rng.randint(1, 5))
+            c = gen_sources(rng, list(dict.fromkeys(names)), heavy=(r < 0.4))
+            c["twice"] = True
+            # INSIGHTS_CONF=true/false makes `conf` a bool; harmless in one load_all (the file was read before the environment),
+            # but a second load_all() then calls RawConfigParser.read(<bool>) -> TypeError.  Like the boolean spellings for
+            # output_dir/output_file/module this is outside the model (see assumptions) and reported, not generated.
+            c["env"] = [[k, (T + "/conf_missing.conf") if (k.upper() == "INSIGHTS_CONF" and v.lower() in ("true", "false")) else v]
+                        for k, v in c["env"]]
+            cases2.append(c)
+            chk.case(("load2", json.dumps(case_for_replay(c, "load"), sort_keys=True)), True)
+        run_stream(chk, scr, cases2, "load2", "load_all-twice")
+        cases3 = []
+        for i in range(300 if quick else 10000):
+            names = rng.sample(hot, rng.randint(1, 4))
+            c = gen_sources(rng, list(dict.fromkeys(names)))
+            c["pos"] = gen_kwvals(rng, [k for k in rng.sample(CORE_BOOLS + ["username", "retries", "compressor"], rng.randint(1, 3))])
+            if rng.random() < 0.3:
+                c["pos"][rng.choice(KW_UNKNOWN)] = True
+            cases3.append(c)
+            chk.case(("loadp", json.dumps(case_for_replay(c, "load"), sort_keys=True)), True)
+        run_stream(chk, scr, cases3, "loadp", "load_all-positional")
         for c, r in list(zip(cases, results))[3:6]:
             chk.sample({"load_all": {"argv": argv_of(scr, c)[1:], "env": c["env"], "file": c["files"]}, "outcome": r[0]})
         # how many cases exercised each precedence layer as the WINNER (distribution for the evidence)
@@ -896,6 +1310,24 @@ def replay(data):
         return 1
     case = data["case"]
     print("replaying", json.dumps(case)[:2000])
+    st = case.get("stream")
+    if st in ("offline-net", "offline-sites", "glue-fname", "glue-item"):
+        if st == "offline-net":
+            fails = offline_case_failures(case)[0]
+        elif st == "offline-sites":
+            fails = [m for m in offline_sites_failures()[1] if m.startswith(case["root"] + " ")]
+        elif st == "glue-item":
+            fails = glue_item_failures(case)
+        else:
+            scr = Scratch()
+            try:
+                fails = glue_fname_failures(scr, case)
+            finally:
+                scr.close()
+        for m in fails:
+            print("ORACLE:", m)
+        print("property violated on this input" if fails else "property holds on this input")
+        return 1 if fails else 0
     scr = Scratch()
 
     class Rec(object):
@@ -911,7 +1343,9 @@ def replay(data):
     try:
         stream = case.get("stream", "load")
         res = run_impl(scr, case, construct_only=(stream == "construct"))
-        line = request(scr, case, "construct" if stream == "construct" else "load")
+        op = ("constructp" if case.get("pos") is not None else "construct") if stream == "construct" else \
+            "loadp" if case.get("pos") is not None else "load2" if case.get("twice") else "load"
+        line = request(scr, case, op)
         try:
             m = driver(None, [line])[0]
         except Exception as e:      # the model is only shown for comparison
